@@ -150,6 +150,13 @@ scan_h! {
     }
 }
 scan_h! {
+    /// experimental: same as the IDAT-after-zlib pair, explored path by path
+    fn k01a_scan_tiling_paths() {
+        scan_case::<1056>(SIG_ZLIB, 4, SIG_IDAT, 12);
+        kani::cover!(true, "reached");
+    }
+}
+scan_h! {
     /// K01a-short: short files (look-alikes at the very end, IDAT with fewer than 4 bytes before it)
     fn k01a_scan_tiling_short() {
         scan_case::<4>(SIG_ZLIB, 2, SIG_NONE, 0);
@@ -386,5 +393,53 @@ kproof! {
         }
         kani::cover!(s1 && !s0, "signature at offset 1");
         kani::cover!(r.is_none(), "no signature");
+    }
+}
+
+kproof! { fn k01_gzip_hdr_20() { gzip_hdr::<20>(); } }
+
+// ---------------------------------------------------------------------------
+// IDAT arm of the scanner: what is emitted must be reconstructible (C01)
+// ---------------------------------------------------------------------------
+pub static mut IDAT_PAYLOAD_LEN: usize = 0;
+/// parse_idat stand-in with CONCRETE sizes (so the scanner's cursor stays concrete): one chunk of 1040 bytes
+pub fn fixed_parse_idat(png: &[u8], _lvl: u32) -> Result<(IdatContents, Vec<u8>)> {
+    if png.len() < 1052 { return err_exit_code(ExitCode::InvalidIDat, ""); }
+    Ok((IdatContents { chunk_sizes: vec![1040], zlib_header: [0x78, 0x9c], total_chunk_length: 1052, addler32: 0 }, vec![0u8; 1034]))
+}
+/// analysis stand-in: accepts the IDAT payload and reports ANY consumed length the real parser could report
+/// (1..=payload length: the DEFLATE stream may end before the end of the payload)
+pub fn any_cs_decompress(d: &[u8], _verify: bool, _l: u32) -> core::result::Result<DecompressResult, crate::preflate_error::PreflateError> {
+    if d.len() != 1034 { return Err(crate::preflate_error::PreflateError::new(ExitCode::InvalidDeflate, "")); }
+    let cs: usize = kani::any();
+    kani::assume(cs >= 1 && cs <= d.len());
+    Ok(DecompressResult { plain_text: vec![0u8; 1025], prediction_corrections: Vec::new(), compressed_size: cs, parameters: dummy_params() })
+}
+kproof! {
+    /// K01h: whenever the scanner emits a PNG chunk, the chunk is reconstructible: recreate_idat requires
+    /// sum(chunk sizes) == reconstructed stream length + 2 (zlib header) + 4 (Adler-32), and the reconstructed
+    /// stream has exactly compressed_size bytes — so the emitted pair must satisfy that equation
+    #[kani::stub(crate::preflate_container::decompress_deflate_stream, any_cs_decompress)]
+    #[kani::stub(crate::idat_parse::parse_idat, fixed_parse_idat)]
+    fn k01h_idat_arm_reconstructible() {
+        const N: usize = 1060;
+        let mut data = [0u8; N];
+        data[4] = b'I'; data[5] = b'D'; data[6] = b'A'; data[7] = b'T';
+        let mut locs: Vec<BlockChunk> = Vec::with_capacity(4);
+        split_into_deflate_streams(&data[..], &mut locs, 0);
+        let mut i = 0;
+        while i < 4 {
+            if i < locs.len() {
+                if let BlockChunk::IDATDeflate(idat, res) = &locs[i] {
+                    let mut sum = 0usize;
+                    let mut k = 0;
+                    while k < 2 { if k < idat.chunk_sizes.len() { sum += idat.chunk_sizes[k] as usize; } k += 1; }
+                    assert!(sum == res.compressed_size + 6, "a PNG chunk is emitted that recreate_idat will reject (bytes between the end of the DEFLATE stream and the Adler-32)");
+                }
+            }
+            i += 1;
+        }
+        kani::cover!(locs.len() >= 2 && matches!(locs[1], BlockChunk::IDATDeflate(..)), "a PNG chunk was emitted");
+        core::mem::forget(locs);
     }
 }
